@@ -43,6 +43,8 @@ fn main() {
         }
     }
     install_quiet_panic_hook();
+    let wd = std::env::var("VERIF_WATCHDOG_S").ok().and_then(|s| s.parse().ok()).unwrap_or(match tier { Tier::Quick => 420u64, Tier::Thorough => 1800 });
+    vh::fw::spawn_watchdog(std::time::Duration::from_secs(wd));
     let mut rep = Report::new(&prop, tier, seed);
     if let Some(path) = replay {
         rep.strict = true;
